@@ -33,6 +33,8 @@ pub fn to_argv(tok: &str, rng: &mut Rng) -> Vec<String> {
         "d" => vec![s("-d")],
         "sorted" => vec![s("-sorted")],
         "follow" => vec![s("-follow")],
+        "xdev" => vec![s("-xdev")],
+        "mount" => vec![s("-mount")],
         "name" => vec![s("-name"), glob_escape(&text(v))],
         "type" => vec![s("-type"), s(v)],
         "lit" => vec![s("-printf"), printf_escape(&text(v), rng)],
